@@ -16,11 +16,13 @@ def violated_line(r):
     return 1, "rejected"
 
 
-def validate_runs(ctx, runs, label, module, cfg, owns=None, key=None, nontrivial=None, timeout=600, heap="4g", max_rounds=10):
+def validate_runs(ctx, runs, label, module, cfg, owns=None, key=None, nontrivial=None, timeout=600, heap="4g", max_rounds=10, raw=None):
     """runs: list of lists of (already compacted / stripped) events, each starting with a reset.
     owns(why, event, tlc_result) -> bool: does this property own the violation (else it is skipped
-    silently: another check reports it).  Returns number of accepted runs."""
-    accepted, rounds, pending = 0, 0, list(runs)
+    silently: another check reports it).  raw: optional list parallel to `runs` with the unfiltered
+    events of each run (storage operations, hook events): stored next to a rejected run, for diagnosis.
+    Returns number of accepted runs."""
+    accepted, rounds, pending, consumed = 0, 0, list(runs), 0
     while pending and rounds < max_rounds:
         rounds += 1
         flat = [e for r in pending for e in r]
@@ -46,9 +48,15 @@ def validate_runs(ctx, runs, label, module, cfg, owns=None, key=None, nontrivial
             vlib.write_ndjson(rp, badrun)
             outp = ctx.path(f"{label}.rejected.{rounds}.tlc.out")
             open(outp, "w").write(r.out[-200000:])
-            ctx.violation(f"{module}: {why}", [rp, outp], json.dumps(badrun[max(0, line - pos - 8):line - pos])[:4000])
+            files = [rp, outp]
+            if raw is not None and consumed + bad < len(raw):
+                rawp = ctx.path(f"{label}.rejected.{rounds}.raw_events.ndjson")
+                vlib.write_ndjson(rawp, raw[consumed + bad])
+                files.append(rawp)
+            ctx.violation(f"{module}: {why}", files, json.dumps(badrun[max(0, line - pos - 8):line - pos])[:4000])
         accepted += bad
         for run in pending[:bad]:
             ctx.distinct(key(run) if key else json.dumps(run)[:2000], nontrivial(run) if nontrivial else True)
         pending = pending[bad + 1:]
+        consumed += bad + 1
     return accepted
